@@ -165,7 +165,7 @@ def _(c):
         c.ensure('error-type', isinstance(o[1], PaddingError))
         c.ensure('rejected-only-if-invalid', lnot(valid))
 
-@obligation(P, 'hash-paddings/remove', cls='B', bound='MD/SHA/BLAKE paddings, messages of 0..70 bytes', cases={'scheme': ['MDpadding', 'SHApadding', 'Blakepadding'], 'n': [0, 1, 55, 56, 64, 70]},
+@obligation(P, 'hash-paddings/remove', cls='B', native=True, bound='MD/SHA/BLAKE paddings, messages of 0..70 bytes', cases={'scheme': ['MDpadding', 'SHApadding', 'Blakepadding'], 'n': [0, 1, 55, 56, 64, 70]},
             funcs=['crysp.padding.MDpadding.remove', 'crysp.padding.SHApadding.remove', 'crysp.padding.Blakepadding.remove'])
 def _(c):
     s, n = c.case('scheme'), c.case('n')
